@@ -13,6 +13,8 @@ structure St where
   xrange : List (Option Range) := [none, none, none]
   xdata : List (List Rat) := [[], [], []]
   xarr : List Part := []
+  /-- a second handle made by `xl share`: its own value (copy on write) -/
+  xarr2 : Option (List Part) := none
   xdims : List Nat := []
   xlen : Nat := 0
   /-- transformation: 0 = test double, 1 = layout::graph::transform3, 2 = plain (default part(), no limits) -/
@@ -120,11 +122,15 @@ def xdump (s : St) (verdict : String) : String :=
   let ok := !judged || validMulti s ps
   s!"R {r} | C {c} | I len={s.xlen} | S " ++ (if ok then s!"{r} ; {c}" else "!invalid ; !invalid")
 
+/-- records of the second handle (its data history is not tracked: not judged, only compared) -/
+def dump2 (ps : List Part) (verdict : String) : String :=
+  s!"R {verdict} n={ps.length} recs={fmtParts ps} | C raw={lengthRaw ps} usr={lengthUser ps} | I len=0 | S * ; *"
+
 def setAt {α} (l : List α) (i : Nat) (v : α) : List α := l.set i v
 
 def xstep (s : St) (w : List String) : St × String :=
   match w with
-  | ["xl", "new"] => ({ s with xrange := [none, none, none], xdata := [[], [], []], xarr := [], xdims := [], xlen := 0, xtr := 0 },
+  | ["xl", "new"] => ({ s with xrange := [none, none, none], xdata := [[], [], []], xarr := [], xarr2 := none, xdims := [], xlen := 0, xtr := 0 },
       "R ok | C - | I -")
   | ["xl", "range", d, "null"] =>
     match Dyadic.parseNat d with
@@ -217,6 +223,24 @@ def xstep (s : St) (w : List String) : St × String :=
       if c < 0 then (s, "R refused cut=7 trim=9 | C - | I - | S refused cut=7 trim=9 ; *")
       else (s, s!"R ok cut={c} trim={c} | C - | I - | S * ; *")
     | none => (s, "bad-op")
+  | ["xl", "share"] => ({ s with xarr2 := some s.xarr }, "R ok | C - | I -")
+  | ["xl", "dump2"] =>
+    match s.xarr2 with
+    | some ps => (s, dump2 ps "ok")
+    | none => (s, "bad-op")
+  | ["xl", "set2", n] =>
+    match s.xarr2, Dyadic.parseNat n with
+    | some _, some k =>
+      if k > 400000 then (s, "bad-op") else ({ s with xarr2 := some (arraySet k) }, dump2 (arraySet k) "ok")
+    | _, _ => (s, "bad-op")
+  | ["xl", "apply2", d] =>
+    match s.xarr2, Dyadic.parseNat d with
+    | some old, some k =>
+      if k ≥ 3 ∨ old.isEmpty then (s, "bad-op") else
+      match arrayApply old (s.xdata.getD k []) (if s.xtr = 2 then none else s.xrange.getD k none) with
+      | none => (s, dump2 old "refused")
+      | some ps => ({ s with xarr2 := some ps }, dump2 ps "ok")
+    | _, _ => (s, "bad-op")
   | ["xl", "dump"] => (s, xdump s "ok")
   | ["xl", "poly"] =>
     let ps := polyParts s.xarr 0
